@@ -416,6 +416,29 @@ def run(eng, R):
         R.ob("B7", "%s.replace_child" % cls.name, ok, eng.where(f), "%s.replace_child (resolved to %s) replaces the child but not the function parameter: the function keeps reading the old node" % (cls.name, f.qualname) if not ok else "ok")
 
 
+    # ---- B10: a child that sits at several positions is replaced at all of them --------------------------
+    R.rule("B10", "replace_child substitutes the node at every position where it occurs (a container may hold the same node several times): the stores into _children / "
+                  "_parameters rebuild the whole list with an identity test per element, never one position found with list.index", 2)
+    seen_rc = set()
+    for cls in family:
+        f = cls.find_method("replace_child")
+        if f is None or id(f) in seen_rc:
+            continue
+        seen_rc.add(id(f))
+        for fld in ("_children", "_parameters"):
+            stores = [n for n in ast.walk(f.node) if isinstance(n, (ast.Assign, ast.AugAssign)) for t in (n.targets if isinstance(n, ast.Assign) else [n.target])
+                      if self_attr(t) == fld or (isinstance(t, ast.Subscript) and self_attr(t.value) == fld)]
+            if not stores:
+                continue
+            bad = [n for n in stores if not (isinstance(n, ast.Assign) and any(self_attr(t) == fld for t in n.targets) and isinstance(n.value, ast.ListComp)
+                                             and len(n.value.generators) == 1 and self_attr(common.resolve_local(f.node, n.value.generators[0].iter)) == fld and not n.value.generators[0].ifs
+                                             and isinstance(n.value.elt, ast.IfExp) and isinstance(n.value.elt.test, ast.Compare) and len(n.value.elt.test.ops) == 1
+                                             and isinstance(n.value.elt.test.ops[0], (ast.Is, ast.IsNot, ast.Eq, ast.NotEq)))]
+            R.ob("B10", "%s:%s" % (f.qualname, fld), not bad, eng.where(f, bad[0] if bad else None),
+                 "%s stores into %s at one position (%s): a node that occurs several times in the list is replaced only where list.index finds it first, the other positions keep "
+                 "the old node and the values read through them" % (f.qualname, fld, norm_stmt(bad[0])[:80] if bad else ""))
+
+
 def _inside(outer, inner):
     for n in ast.walk(outer):
         if n is inner:
